@@ -1413,7 +1413,8 @@ dt_datetime(dt_dttyp_t outtyp)
 		}
 		case DT_YD:
 			res.d.yd.y = tm.tm_year;
-			res.d.yd.d = tm.tm_yday;
+			/* tm_yday counts from 0 */
+			res.d.yd.d = tm.tm_yday + 1;
 			break;
 		default:
 			/* grrrr */
